@@ -47,10 +47,45 @@ def run(chk):
     chk.guard(r03_7_fresh_wrapper, chk)
 
 
+def _numbering_generator_form(chk, mfd, it_):
+    """MultiFrameData.__iter__ written as a generator: every yielded FrameData is numbered by one enumeration,
+    starting at 1, of the row generator over *all* rows (a numbering that restarts per chunk is refuted)."""
+    from ..terms import SELF, A, K, is_call, call_arg, contains, pp
+    su = chk.terms.inline(it_, 2)
+    ys = [(pc, t, ctx) for pc, t, n, ctx in su.yields]
+    chk.floor("frame data yields", len(ys), 1)
+    for pc, t, ctx in ys:
+        loops = [c for c in ctx if c[0] in ("for", "while")]
+        ok = is_call(t, "FrameData") and len(loops) == 1 and loops[0][0] == "for"
+        detail = "a record is produced outside the single loop over the rows"
+        if ok:
+            it = loops[0][2]
+            el = ("elem", it, loops[0][1])
+            rows = it[2][0] if is_call(it, "enumerate") and it[2] else None
+            start = call_arg(it, 1, "start") if rows is not None else None
+            num, slots = call_arg(t, kw="frame_number"), call_arg(t, kw="slots")
+            ok = rows is not None and start == K(1) and is_call(rows, "make_chunked_generator") and \
+                num == ("sub", el, K(0)) and slots == ("sub", el, K(1)) and call_arg(t, kw="frame") == A(SELF, "_frame")
+            detail = f"frame number `{pp(num) if num else '?'}` over `{pp(it)[:60]}`"
+        chk.require(ok, "R03.1", "frame-number-counts-all-rows-from-1",
+                    f"the records are not numbered 1..N over all rows of the frame in order ({detail})", it_.where)
+    # body layout and memo rules are shared with the iterator form
+    return True
+
+
 def r03_1_numbering(chk):
     ix = chk.ix
     mfd = ix.get_class("MultiFrameData")
     it_, nx = mfd.lookup("__iter__"), mfd.lookup("__next__")
+    if it_ is None:
+        raise AnalysisError("MultiFrameData.__iter__ not found")
+    if nx is None and it_.is_generator():
+        chk.consult(it_)
+        _numbering_generator_form(chk, mfd, it_)
+        _r03_1_body(chk)
+        return
+    if nx is None:
+        raise AnalysisError("MultiFrameData is neither an iterator (__next__) nor a generator-based iterable")
     chk.consult(it_, nx)
     g = CFG(nx.node)
     incs = g.nodes_where(lambda s: isinstance(s, ast.AugAssign) and is_self_attr(s.target) and isinstance(s.op, ast.Add)
@@ -82,6 +117,11 @@ def r03_1_numbering(chk):
     resets = [s for s in stores_in(it_) if s.attr == counter and try_const(s.value) == 0]
     chk.require(bool(resets), "R03.1", "counter-reset-per-iteration", "the frame counter is not reset when iteration "
                 "starts: a second write would continue the numbering", it_.where)
+    _r03_1_body(chk)
+
+
+def _r03_1_body(chk):
+    ix = chk.ix
     # body layout (value-flow normal form of FrameData._make_body_bytes: helpers and temporaries looked through)
     from ..terms import SELF, A, is_call, call_arg, pp
     from ._layout import row_body
@@ -134,6 +174,15 @@ def r03_2_byte_order(chk):
                         nontrivial=False)
     chk.require(ok, "R03.2", "each-slot-swapped-once",
                 "a slot's bytes are emitted without (or with more than) one byte swap", body.where)
+    # the zero-copy path hands the caller's rows over without normalising them: only exact dtype equality (which
+    # includes the byte order) makes that safe  (shared with C08 R08.5)
+    from . import c08
+    n0 = len(chk.obs)
+    c08.r08_5_record_layout(chk)
+    keep = [o for o in chk.obs[n0:] if o.key == "zero-copy-only-for-identical-dtype"]
+    for o in keep:
+        o.rule = "R03.2"
+    chk.obs[n0:] = keep
 
 
 def _dtype_component_flows(rd, tup, at):
